@@ -387,7 +387,21 @@ func R02R03() Rule {
 								continue
 							}
 							nRoots++
-							if la.Breaks[root][tableLock] || len(epochEvents(la, root)) > 0 {
+							// only a release that can happen *between* the read and the write-back interrupts the
+							// hold (an unlock after the last write-back — before the response is sent — does not)
+							between := 0
+							rs := c.P.ExecSites(root, s.instr, sc)
+							ws := c.P.ExecSites(root, w.call.Instr, sc)
+							for _, ev := range epochEvents(la, root) {
+								for _, r := range rs {
+									for _, w2 := range ws {
+										if ev.Parent() == r.Parent() && ev.Parent() == w2.Parent() && core.InstrReaches(r, ev) && core.InstrReaches(ev, w2) {
+											between++
+										}
+									}
+								}
+							}
+							if between > 0 {
 								c.Bad("R02", construct, pos, "row read at %s (in %s) is written back here, and %s — which runs both — releases %s in between: the write can overwrite a concurrent update", c.P.Pos(s.instr.Pos()), core.FuncName(s.instr.Parent()), core.FuncName(root), tableLock)
 								bad = true
 								break
